@@ -9,6 +9,7 @@ import (
 	"path/filepath"
 	"strings"
 	"sync"
+	"syscall"
 	"time"
 )
 
@@ -169,7 +170,9 @@ func sliceRadius(ass []Assump, radius int, seeds ...*Term) []*Term {
 
 // ScriptRadius is Script with a bounded-relevance hypothesis set. The goal is skolemised and the quantified
 // hypotheses are additionally instantiated at the skolem constants and their neighbours (k-1, k, k+1).
-func (ob *Obligation) ScriptRadius(radius int) string { return ob.ScriptRadiusOpt(radius, false, false) }
+func (ob *Obligation) ScriptRadius(radius int) string {
+	return ob.ScriptRadiusOpt(radius, false, false)
+}
 
 func hasQuant(t *Term, memo map[*Term]bool) bool {
 	if v, ok := memo[t]; ok {
@@ -307,9 +310,13 @@ func (ob *Obligation) SplitPC(max int) [][]*Term {
 }
 
 func runSolver(ctx context.Context, sp solverSpec, file string, timeoutS int) (status, raw string, secs float64) {
-	args := sp.args(timeoutS, file)
+	// The budget is CPU time of the solver process (ulimit -t), not wall-clock time: a verdict must not depend on how
+	// busy the machine is (a wall-clock limit turned a 3 s proof into a "timeout" when many checks ran side by side).
+	// The solvers' own (wall-clock) limits and the context are only a backstop at four times the budget.
+	wall := 4*timeoutS + 5
+	args := append([]string{"/bin/sh", "-c", fmt.Sprintf("ulimit -t %d; exec \"$@\"", timeoutS+1), "sh"}, sp.args(wall, file)...)
 	t0 := time.Now()
-	cctx, cancel := context.WithTimeout(ctx, time.Duration(timeoutS+2)*time.Second)
+	cctx, cancel := context.WithTimeout(ctx, time.Duration(wall+2)*time.Second)
 	defer cancel()
 	cmd := exec.CommandContext(cctx, args[0], args[1:]...)
 	var out, errb bytes.Buffer
@@ -334,6 +341,11 @@ func runSolver(ctx context.Context, sp solverSpec, file string, timeoutS int) (s
 	if err != nil || first != "" {
 		if strings.Contains(raw, "timeout") || strings.Contains(raw, "interrupted") {
 			return "timeout", raw, secs
+		}
+		if ee, ok := err.(*exec.ExitError); ok && ee.ProcessState != nil {
+			if ws, ok := ee.ProcessState.Sys().(syscall.WaitStatus); ok && ws.Signaled() && (ws.Signal() == syscall.SIGXCPU || ws.Signal() == syscall.SIGKILL) {
+				return "timeout", raw, secs // CPU budget used up
+			}
 		}
 		return "error", raw, secs
 	}
